@@ -75,6 +75,14 @@ def check(case):
             if T > n:
                 res.fail('created', 'created|' + base, 'votes+residual %s exceeds %s ballots at action %d (%s)' % (T, n, i, a['msg']))
                 break
+            # right after a distribution nothing is in flight: the residual is defined as what no candidate kept, so the total is
+            # exact under every arithmetic (snapshots with a zeroed, not yet redistributed tally are outside the claim, see C08)
+            epi = a['tag'] in ('elect', 'defeat') and common.epilogue_msg(a['msg'])
+            settled = (a['tag'] in ('iterate', 'end')) if rule != 'meek-prf' else \
+                (a['tag'] in ('begin', 'tie', 'end') or (a['tag'] in ('elect', 'defeat') and not epi))
+            if settled and T != n:
+                res.fail('lost', 'lost|' + base, 'votes+residual %s falls short of %s ballots right after a distribution, action %d (%s)' % (T, n, i, a['msg']))
+                break
         res.tag('meek')
         if o.iterations >= 2 or (not ar.exact_flag and len(acts) > 4):
             res.nontrivial = True
